@@ -38,7 +38,10 @@ RULE = ("Hypothesis draws per-dimension boxes (symmetric / offset ~1 / offset up
         "differentiation-matrix call histories for one process (single call, orders 1..m increasing, m..1 decreasing, free "
         "sequences interleaving another box of the same size and the same box with another size, bounds respelled per call, "
         "returned matrices optionally overwritten by the caller), integer-dtype value / coefficient cores for integer data, "
-        "custom bases (Chebyshev/Legendre/monomial/func_basis at jittered nodes); LONG tensors: d 2..200(320), mostly 96+, rank 1..2 "
+        "custom bases (Chebyshev/Legendre/monomial/func_basis at jittered nodes, shared / per-core grids; the basis as it is, the WHOLE basis times "
+        "10^e, |e| <= 12, or 2^e, |e| <= 40 (mostly |e| >= 7 / 23), one or two SINGLE functions times 10^e / 2^e, a GRADED basis g^j with g = 2^+-1, 2^+-2, "
+        "10^+-1, and single / graded on top of a whole-basis factor - spread max/min of the functions within 1e3 / 1e5 / 1e6 for rcond = default / 1e-8 / "
+        "1e-12; generating coefficients = O(2^s) contributions divided by the scale, i.e. inversely scaled; the function itself times 10^e, |e| <= 12, in one core); LONG tensors: d 2..200(320), mostly 96+, rank 1..2 "
         "(uniform / ragged), n_k 2..5, half-widths m*10^e with all e in -3..-2 / all in 2..3 / one uniform box at 1e-3 or 1e3 / any "
         "order with a bounded running product / e = 0, boxes symmetric, [0, w], offset ~1, offset up to 1.9e3 widths, integer bounds, "
         "polynomials positive (T_0-dominated), signed rank-1, signed rank-2; a 'density' whose coefficient magnitudes compensate the "
@@ -47,7 +50,7 @@ RULE = ("Hypothesis draws per-dimension boxes (symmetric / offset ~1 / offset up
         "outside in a single late coordinate), func_int / func_gets entries and, where the widths allow, func_sum. "
         "Oracle = numpy.polynomial.chebyshev reference of the generating polynomial with a derived rounding bound. "
         "Non-trivial = TT-rank >= 2 or a non-symmetric box or a new grid size != n (tt/dense), rank >= 2 or two different "
-        "operands (linear), n >= 3 (diff), rank >= 2 or per-core nodes or a non-Chebyshev basis (general), d >= 50 with both a "
+        "operands (linear), n >= 3 (diff), rank >= 2 or per-core nodes or a non-Chebyshev basis or a rescaled basis (general), d >= 50 with both a "
         "func_sum and a func_get comparison inside the applicability guard (long); distinct by SHA-1.")
 TOLERANCES = ("values: |got-ref| <= [32(d+sum r) + sum_k n_k^2 (8 kappa_k + 48)] * eps * scale, scale = chain product of "
               "sum_j |C_k[:, j, :]| (abs-majorant of every value, |T_j| <= 1, |T_j'| <= j^2, point->t map loses "
@@ -59,8 +62,12 @@ TOLERANCES = ("values: |got-ref| <= [32(d+sum r) + sum_k n_k^2 (8 kappa_k + 48)]
               "(4 kappa + 8) eps for poi_scale, <= 0.001 of the bound for func_sum; the generated kappa stops at 1e8 only because the bound "
               "8 kappa n^2 eps (1.4e-5 scale for n = 9, 5e-5 for n = 17) would stop being informative beyond); coefficient tensors and integrals: the same with kappa = 0 (integral times prod (b-a)); "
               "D_j y: 64 eps n^(2j+1) (2/(b-a))^j sum|c| (||D_j||_inf <= n^(2j)); fill value: bit-for-bit; arbitrary-Y "
-              "transform pairs: 32(d+sum r+8 n) eps * dense of per-core l1 majorants; custom bases: 64 eps d n^2 cond(H) * "
-              "prod ||C_k||_F ||phi(x_k)||_2; long tensors: the value is a product R_1..R_d of per-dimension matrices (exact 1-D "
+              "transform pairs: 32(d+sum r+8 n) eps * dense of per-core l1 majorants; custom bases: coefficients compared as CONTRIBUTIONS "
+              "c_j |phi_j| (|phi_j| = 2-norm of function j on the grid of the core, so the comparison is relative to the magnitude of the function and invariant "
+              "under any rescaling of the whole basis): 64 eps d n^2 cond_n spread * prod ||C_k |phi||_F (||phi(x)/|phi|||_2 for values), cond_n = condition number "
+              "of the column-normalised design matrix, spread = max|phi_j| / min|phi_j| (backward-stable SVD solve: (H+E) q = M, |E| <= c eps |H|, gives a "
+              "contribution error c eps cond_n spread |contributions|; cond_n spread >= s_max/s_min); measured on the unmodified tree: <= 0.007 of the bound for "
+              "every scale pattern and rcond (8000 cases per tier); long tensors: the value is a product R_1..R_d of per-dimension matrices (exact 1-D "
               "integrals times (b-a)/2, series values, coefficient slices) multiplied dimension by dimension; |got-ref| <= 2 eps sum_k "
               "|R_1|..|R_{k-1}| (K_k M_k) |R_{k+1}|..|R_d| with M_k = sum_j |C_k[:, j, :]| (times (b-a) for integrals) >= |R_k| and "
               "K_k = 32(1+r_k+r_{k+1}) + n_k^2 (8 kappa_k + 48) (+48 m_k on a new grid): first-order perturbation bound, relative "
@@ -80,7 +87,13 @@ ASSUMPTIONS = ["mode sizes n_k >= 2 and new grid sizes m_k >= 2 (a one-node Cheb
                "func_get_full documents X as np.ndarray (lists are not generated for it); func_get accepts lists",
                "'outside' = beyond a bound by >= 1 ulp of a non-zero bound or by >= 1e-6 (b-a); membership decided by float comparison",
                "with skip_out=False (explicit, or defaulted because a/b is None) nothing is asserted about outside points",
-               "custom bases follow the library-wide convention basis(x) -> [functions, points]; square systems with cond <= 1e4",
+               "custom bases follow the library-wide convention basis(x) -> [functions, points]; square systems whose COLUMN-NORMALISED design matrix has cond <= 1e4 "
+               "(any overall scale 1e-12..1e12 of the basis: the conditioning does not depend on a common factor)",
+               "func_int_general(rcond) drops singular values below rcond * s_max of the whole design matrix (SciPy lstsq cond=): basis functions of very different "
+               "scales in ONE basis are legitimately cut - on the unmodified tree a single function times f is reproduced to 31 eps cond(H) for |log10 f| <= "
+               "-log10(rcond) - 1 and lost (relative error 1) for |log10 f| >= -log10(rcond) + 1; reproduction is asserted iff s_max/s_min <= 0.01 / rcond "
+               "(and cond_n * spread <= 1e8), which the generated spreads satisfy by construction in > 99% of the cases; rcond in {default 1e-6, 1e-8, 1e-12} "
+               "is passed as the relative cut-off it is forwarded as",
                "long tensors: a comparison is made only if every partial product |R_1|..|R_k| and |R_k|..|R_d| of the reference chain and every "
                "per-dimension majorant lies in [1e-200, 1e200] (then any dimension-by-dimension evaluation order stays representable); true values "
                "that need an out-of-range intermediate in every sweep order are generated (func_sum of the O(1)-valued polynomial on small / large "
@@ -965,13 +978,27 @@ def prop_diff(case, ctx):
 
 # ------------------------------------------------------------------------------------------- custom bases, least squares
 
-def make_basis(kind, nf, lo, hi):
-    """basis(x) -> [functions, points] (the convention of func_basis, func_get(funcs=), als_func)."""
-    if kind == "func_basis":
-        return lambda x: teneva.func_basis(np.asarray(x, dtype=float), nf)
+def pow_of(spec):
+    """Exact power of two / correctly rounded power of ten from its drawn description [base, exponent]."""
+    base, e = int(spec[0]), int(spec[1])
+    return math.ldexp(1.0, e) if base == 2 else float("1e%d" % e)
 
-    def basis(x):
+
+def scale_vector(sc, nf):
+    """Per-function factors S_j = whole * per_j of a custom basis (None = the basis as it is)."""
+    if not sc:
+        return None
+    per = sc.get("per") or []
+    S = np.array([pow_of(sc["whole"]) * (pow_of(per[j]) if j < len(per) else 1.0) for j in range(nf)], dtype=float)
+    return None if np.all(S == 1.0) else S
+
+
+def make_basis(kind, nf, lo, hi, S=None):
+    """basis(x) -> [functions, points] (the convention of func_basis, func_get(funcs=), als_func); function j times S[j]."""
+    def base(x):
         x = np.asarray(x, dtype=float)
+        if kind == "func_basis":
+            return teneva.func_basis(x, nf)
         t = (2.0 * x - lo - hi) / (hi - lo)
         if kind == "cheb":
             V = npcheb.chebvander(t, nf - 1)
@@ -980,7 +1007,49 @@ def make_basis(kind, nf, lo, hi):
         else:
             V = np.vander(t, nf, increasing=True)
         return V.T
-    return basis
+    if S is None:
+        return base
+    S = np.asarray(S, dtype=float)
+    return lambda x: S[:, None] * np.asarray(base(x), dtype=float)
+
+
+# The fit is linear and the conditioning of the design matrix that matters is the one of the COLUMN-NORMALISED matrix: a basis
+# c * phi_j (other units, functions normalised over a wide box, a Gaussian weight far in the tail) spans the same functions with
+# coefficients 1 / c times as large, and nothing in a least-squares / pseudo-inverse step may depend on the absolute size of
+# the singular values.  Scale patterns of a case: the whole basis times 10^e (|e| <= 12) or 2^e (|e| <= 40); one or two single
+# functions times such a factor; a graded basis S_j = g^j (unnormalised monomials on a box of half-width g); combinations.
+# The cut of lstsq(cond=rcond) is relative to s_max of the WHOLE matrix, so functions of very different scales in one basis
+# are legitimately removed: measured on the unmodified tree (phi_j = T_j, one function times f, d = 3, rank 2), the
+# contribution-scaled coefficient error is <= 31 eps cond(H) for |log10 f| <= -log10(rcond) - 1 (1e-11 at f = 1e+-5 with the
+# default rcond = 1e-6, 2e-9 at f = 1e+-7 with 1e-8, 1e-7 at 1e+-9 with 1e-12) and 1.0 (the function is dropped, or all the
+# others are) for |log10 f| >= -log10(rcond) + 1.  The spread of a generated basis therefore stays within 1e3 / 1e5 / 1e6 for
+# rcond = default / 1e-8 / 1e-12, and reproduction is asserted iff s_max / s_min of the actual matrix is <= 0.01 / rcond.
+GEN_SPREAD_LOG10 = {"default": 3, "1e-8": 5, "1e-12": 6}
+GEN_RCOND = {"default": 1e-6, "1e-8": 1e-8, "1e-12": 1e-12}
+GEN_PATTERNS = ["none", "none", "whole", "whole", "whole", "whole", "single", "single+whole", "single+whole", "graded", "graded+whole"]
+
+whole_scales = st.one_of(
+    st.tuples(st.just(10), st.one_of(st.integers(-12, -7), st.integers(7, 12), st.integers(-12, 12))),
+    st.tuples(st.just(2), st.one_of(st.integers(-40, -23), st.integers(23, 40), st.integers(-40, 40)))).map(list)
+
+
+@st.composite
+def basis_scales(draw, nf, rcond):
+    pat = draw(st.sampled_from(GEN_PATTERNS))
+    L = GEN_SPREAD_LOG10[rcond]
+    whole = draw(whole_scales) if "whole" in pat else [10, 0]
+    per = [[10, 0] for _ in range(nf)]
+    if pat.startswith("single"):
+        # one factor, or two of the same sign: the spread max S / min S stays within 10^L
+        sg = draw(st.sampled_from([-1, 1]))
+        for _ in range(draw(st.integers(1, 2))):
+            j = draw(st.integers(0, nf - 1))
+            per[j] = [10, sg * draw(st.integers(1, L))] if draw(st.booleans()) else [2, sg * draw(st.integers(1, 3 * L))]
+    elif pat.startswith("graded"):
+        base, step = draw(st.sampled_from([(2, 1), (2, -1), (2, 2), (2, -2), (10, 1), (10, -1)]))
+        top = (3 * L if base == 2 else L) // abs(step)
+        per = [[base, step * min(j, top)] for j in range(nf)]
+    return {"pat": pat, "whole": whole, "per": per}
 
 
 @st.composite
@@ -994,10 +1063,13 @@ def general_cases(draw, tier):
     else:
         bx = draw(box1(force=draw(st.sampled_from(["sym", "sym", "off1", "off1", "tsym", "hsym", "toff", "lo0"]))))
         lo, hi = bx["a"], bx["b"]
+    rcond = draw(st.sampled_from(["default", "default", "default", "1e-8", "1e-8", "1e-12"]))
     return {"kind": kind, "nf": nf, "r": r, "lo": lo, "hi": hi, "shared_X": draw(st.booleans()), "x_list": draw(st.booleans()),
             "exp": [draw(st.integers(-6, 6)) for _ in range(d)], "seed": draw(gen.seeds),
             "U": [[draw(st.floats(0.0, 1.0)) for _ in range(d)] for _ in range(draw(st.integers(1, 5)))],
-            "bounds": draw(st.booleans()), "funcs_list": draw(st.booleans()), "rcond_default": draw(st.booleans())}
+            "bounds": draw(st.booleans()), "funcs_list": draw(st.booleans()), "rcond": rcond,
+            "scale": draw(basis_scales(nf, rcond)),
+            "fmag": draw(st.sampled_from([0, 0, 0, 0, 1])) * draw(st.one_of(st.integers(-12, 12), st.sampled_from([-12, -12, -11, 11, 12]))), "fmag_core": draw(st.integers(0, d - 1))}
 
 
 def prop_general(case, ctx):
@@ -1005,7 +1077,11 @@ def prop_general(case, ctx):
     d = len(r) - 1
     lo, hi = float(case["lo"]), float(case["hi"])
     rng = np.random.default_rng(case["seed"])
-    basis = make_basis(kind, nf, lo, hi)
+    sc = case.get("scale")
+    S = scale_vector(sc, nf)
+    basis = make_basis(kind, nf, lo, hi, S)
+    rc_name = case.get("rcond") or ("default" if case.get("rcond_default", True) else "1e-8")
+    rcond = GEN_RCOND[rc_name]
 
     def nodes():
         tt = np.cos(np.pi * (np.arange(nf) + 0.5 + rng.uniform(-0.3, 0.3, size=nf)) / nf)
@@ -1018,25 +1094,48 @@ def prop_general(case, ctx):
     else:
         Xk = [nodes() for _ in range(d)]
         Xarg = [x.tolist() for x in Xk] if case["x_list"] else np.array(Xk)
-    C = [rng.uniform(-1.0, 1.0, size=(r[k], nf, r[k + 1])) * 2.0 ** case["exp"][k] for k in range(d)]
     H = [np.asarray(basis(x), dtype=float) for x in Xk]                       # [functions, points]
-    cond = max(float(np.linalg.cond(h)) for h in H)
-    ctx.label("basis:" + kind, "X:shared" if case["shared_X"] else "X:per_core", f"d={d}", "rank>=2" if max(r) >= 2 else "rank1")
-    if not cond <= 1e4:
+    W = [np.linalg.norm(h, axis=1) for h in H]                                # size of function j on the grid of core k
+    # generating coefficients: O(2^exp) CONTRIBUTIONS c_j * |phi_j| (the coefficients scale inversely with the basis)
+    Cs = [rng.uniform(-1.0, 1.0, size=(r[k], nf, r[k + 1])) * 2.0 ** case["exp"][k] for k in range(d)]
+    fmag = int(case.get("fmag", 0))
+    if fmag:
+        Cs[int(case.get("fmag_core", 0)) % d] *= float("1e%d" % fmag)
+    C = [Cs[k] if S is None else Cs[k] / S[None, :, None] for k in range(d)]
+    with np.errstate(all="ignore"):
+        cond_n = max(float(np.linalg.cond(h / w[:, None])) for h, w in zip(H, W))    # column-normalised design matrix
+        cond_a = max(float(np.linalg.cond(h)) for h in H)                             # s_max / s_min: what the relative cut sees
+        spread = max(float(np.max(w) / np.min(w)) for w in W)
+    cond = cond_n * spread                                                            # >= cond_a; governs the rounding error
+    ctx.label("basis:" + kind, "X:shared" if case["shared_X"] else "X:per_core", f"d={d}", "rank>=2" if max(r) >= 2 else "rank1",
+              "rcond:" + rc_name, "scale:" + (sc["pat"] if sc else "none"))
+    if S is not None:
+        lg = math.log10(float(np.max(S)))
+        ctx.label("basis_max_scale:" + ("<=1e-7" if lg <= -6.5 else "1e-6..1e-3" if lg < -2.5 else ">=1e7" if lg >= 6.5 else "1e3..1e6" if lg > 2.5 else "~1"))
+    if fmag:
+        ctx.label("function_magnitude:1e%+03d" % (4 * (fmag // 4)))
+    if not cond_n <= 1e4:
         ctx.label("ill_conditioned_skipped")
         return
-    ctx.nontrivial(max(r) >= 2 or not case["shared_X"] or kind in ("leg", "mono"))
+    if not (cond_a * rcond <= 1e-2 and cond <= 1e8):
+        ctx.label("spread_within_100x_of_the_relative_cut_skipped")
+        return
+    ctx.nontrivial(max(r) >= 2 or not case["shared_X"] or kind in ("leg", "mono") or S is not None)
     Y = [np.einsum('ajb,ji->aib', Ck, h) for Ck, h in zip(C, H)]
-    args = () if case["rcond_default"] else (1e-8,)
+    args = () if rc_name == "default" else (rcond,)
     # (func_int_general overwrites value cores with a unit boundary rank in place; argument purity is C09's subject,
     #  so the library gets its own copy and nothing is asserted about it here)
     A = ctx.lib(teneva.func_int_general, [G.copy() for G in Y], Xarg, basis, *args)
     why = oracle.wellformed(A, [nf] * d)
     ctx.check(why is None, f"func_int_general: not a well-formed TT-tensor: {why}")
     ctx.check([G.shape for G in A] == [G.shape for G in C], "func_int_general: core shapes differ from the value cores")
-    fro = float(np.prod([np.linalg.norm(Ck) for Ck in C]))
+    # compared as contributions c_j * |phi_j| on the grid, i.e. relative to the magnitude of the function itself
+    As = [np.asarray(G, dtype=float) * w[None, :, None] for G, w in zip(A, W)]
+    Cw = [G * w[None, :, None] for G, w in zip(C, W)]
+    fro = float(np.prod([np.linalg.norm(Ck) for Ck in Cw]))
     tol = 64.0 * EPS * d * nf * nf * cond * fro
-    close(ctx, dense(A), dense(C), tol, "func_int_general: fitted coefficient tensor vs the generating coefficients", cond_H=cond)
+    close(ctx, dense(As), dense(Cw), tol, "func_int_general: fitted coefficient tensor vs the generating coefficients",
+          cond_normalised=cond_n, spread=spread, basis_scale=None if S is None else S.tolist(), rcond=rc_name)
 
     # evaluation in the custom basis reproduces the function at arbitrary points
     Xp = np.array([[lo + (hi - lo) * float(u) for u in row] for row in case["U"]], dtype=float)
@@ -1046,13 +1145,14 @@ def prop_general(case, ctx):
     maj = np.ones(len(Xp))
     for k in range(d):
         v = v @ np.einsum('ajb,jm->mab', C[k], P[k])
-        maj = maj * np.linalg.norm(C[k]) * np.linalg.norm(P[k], axis=0)
+        maj = maj * np.linalg.norm(Cw[k]) * np.linalg.norm(P[k] / W[k][:, None], axis=0)
     funcs = [basis] * d if case["funcs_list"] else basis
     ab = (lo, hi) if case["bounds"] else (None, None)
     got = np.asarray(ctx.lib(teneva.func_get, Xp, A, ab[0], ab[1], 0.0, funcs))
     ctx.check(got.shape == (len(Xp),), "func_get(funcs=): result shape", got=got.shape)
     close(ctx, got, v[:, 0, 0], 64.0 * EPS * d * nf * nf * cond * maj,
-          "func_get(funcs=basis) vs the generating function", cond_H=cond)
+          "func_get(funcs=basis) vs the generating function", cond_normalised=cond_n, spread=spread,
+          basis_scale=None if S is None else S.tolist(), rcond=rc_name)
 
 
 # ------------------------------------------------------------------------------------------- long tensors (d up to 200+)
@@ -1327,6 +1427,6 @@ SUBCHECKS = [
     Sub("dense_geo", prop_dense, strategy=lambda tier: dense_cases(tier, geo=True), quick=50, thorough=800),
     Sub("linear", prop_linear, strategy=linear_cases, quick=120, thorough=2000),
     Sub("diff", prop_diff, strategy=diff_cases, quick=150, thorough=3000),
-    Sub("general", prop_general, strategy=general_cases, quick=120, thorough=2500),
+    Sub("general", prop_general, strategy=general_cases, quick=160, thorough=3000),
     Sub("long", prop_long, strategy=long_cases, quick=24, thorough=300),
 ]
